@@ -54,8 +54,11 @@ fn smooth_once<'a, T: IteTable<'a, BddPtr<'a>> + Default>(
     ns_sel: u8,
     case: &Case,
     call_no: usize,
-) -> Result<(bool, bool, bool, bool, BddPtr<'a>, usize), Failure> {
-    let (f, t) = pool[pick(target, pool.len())];
+) -> Result<(bool, bool, bool, bool, BddPtr<'a>, usize, BddPtr<'a>), Failure> {
+    let (f, _) = pool[pick(target, pool.len())];
+    // the input is taken as what it denotes (read by walking it); whether the history produced the function
+    // the oracle expects is C01's concern
+    let t = bdd_tt(f);
     let lv = order_levels(b.order());
     let order: Vec<usize> = b.order().in_order_iter().map(|v| v.value_usize()).collect();
     let lo = bdd_nodes(f).iter().map(|nd| lv[nd.var.value_usize()] + 1).max().unwrap_or(0);
@@ -169,6 +172,19 @@ fn smooth_once<'a, T: IteTable<'a, BddPtr<'a>> + Default>(
         f.to_string_debug(),
         order
     );
+    let got_real2 = s2.unsmoothed_wmc(&real).0;
+    ensure!(
+        got_real2 == exp_real,
+        "C08/weighted-count-real",
+        "smooth(smooth(f, {}), {}) counts {} under integer weights {:?}, brute force over models gives {}; f = {}, order {:?}",
+        ns,
+        ns,
+        got_real2,
+        &wr,
+        exp_real,
+        f.to_string_debug(),
+        order
+    );
     let got_ff = s.unsmoothed_wmc(&ff).value();
     ensure!(
         got_ff == exp_ff,
@@ -190,7 +206,7 @@ fn smooth_once<'a, T: IteTable<'a, BddPtr<'a>> + Default>(
         f.to_string_debug()
     );
     let _ = call_no;
-    Ok((skip_top, skip_mid, skip_bot, shorter, f, ns))
+    Ok((skip_top, skip_mid, skip_bot, shorter, f, ns, s))
 }
 
 fn go<'a, T: IteTable<'a, BddPtr<'a>> + Default>(
@@ -208,8 +224,15 @@ fn go<'a, T: IteTable<'a, BddPtr<'a>> + Default>(
     calls.extend(case.more.iter().copied().take(4));
     let mut first: Option<(bool, bool, bool, bool, BddPtr<'a>, usize)> = None;
     let mut distinct_ns = std::collections::BTreeSet::new();
+    let base_len = run.pool.len();
     for (call_no, (target, ns_sel)) in calls.iter().enumerate() {
-        let (skip_top, skip_mid, skip_bot, shorter, f, ns) = smooth_once(b, &run.pool, n, *target, *ns_sel, case, call_no)?;
+        let picked = pick(*target, run.pool.len());
+        let (skip_top, skip_mid, skip_bot, shorter, f, ns, s) = smooth_once(b, &run.pool, n, *target, *ns_sel, case, call_no)?;
+        // smoothed results join the pool: a later call may smooth one of them over a longer prefix
+        if picked >= base_len {
+            st.bump("smoothed_a_smoothed_diagram_over_a_longer_or_equal_prefix");
+        }
+        run.pool.push((s, bdd_tt(s)));
         distinct_ns.insert(ns);
         if first.is_none() {
             first = Some((skip_top, skip_mid, skip_bot, shorter, f, ns));
@@ -240,7 +263,7 @@ fn go<'a, T: IteTable<'a, BddPtr<'a>> + Default>(
 impl SubCheckT for Smooth {
     type Case = Case;
     const NAME: &'static str = "smooth";
-    const RULE: &'static str = "BDD picked from a random <=25-op history under a random order (complemented roots and constants included), n_s between (deepest tested level + 1) and num_vars, arbitrary integer weights 0..6 and boundary finite-field residues: smooth(f,n_s) has f's truth table, every path tests exactly the order prefix var_at_level(0..n_s), weighted counts (real, GF(2^64-25)) equal the brute-force sum over models on those n_s variables and the unit-weight count equals the number of models. The smoothed result is smoothed once more over the same prefix and must keep that shape. Up to 3 further smoothings (other pool entries, other n_s) are issued on the same builder and checked the same way, so a result may not depend on earlier calls. Non-trivial: some input path is shorter than n_s and the weights are not all (1,1)";
+    const RULE: &'static str = "BDD picked from a random <=25-op history under a random order (complemented roots and constants included), n_s between (deepest tested level + 1) and num_vars, arbitrary integer weights 0..6 and boundary finite-field residues: smooth(f,n_s) has f's truth table, every path tests exactly the order prefix var_at_level(0..n_s), weighted counts (real, GF(2^64-25)) equal the brute-force sum over models on those n_s variables and the unit-weight count equals the number of models. The smoothed result is smoothed once more over the same prefix and must keep that shape, and joins the pool, so that up to 3 further smoothings (other pool entries incl. earlier smoothed results over longer prefixes, other n_s) are issued on the same builder and checked the same way, so a result may not depend on earlier calls. Non-trivial: some input path is shorter than n_s and the weights are not all (1,1)";
     fn cases(tier: Tier) -> u32 {
         tier.pick(40_000, 400_000)
     }
